@@ -347,7 +347,12 @@ pub fn run(ctx: &'static Ctx) {
                     };
                     offs.fetch_add(1, Ordering::Relaxed);
                     let (got, want) = (build(int), build(&refc));
-                    if got != want || got.is_err() {
+                    // the two sides share the container's own buffering, so one independent fact as well: the reference
+                    // encoding followed by the One that was added after it appears in the object
+                    let mut tail = refc.0.clone();
+                    tail.push(0x01);
+                    let independent = matches!(&got, Ok(g) if g.windows(tail.len()).any(|w| w == &tail[..]));
+                    if got != want || got.is_err() || !independent {
                         ctx.violation_sized(
                             "int:embedded:offset",
                             *k as u64,
